@@ -587,3 +587,65 @@ func RunAllowedCallees(c *Ctx, rule string, funcs, allowed []string, why string)
 		scan(fi, 0)
 	}
 }
+
+// RunMarshalByValue (E8.R-marshal-value): a value handed to a JSON encoder (encoding/json Marshal / Encoder.Encode, the
+// library's crypto.Sign and httphelper.MarshalJSON*) must not be a *non-pointer* value of a named type whose custom
+// MarshalJSON has a pointer receiver: inside an interface the copy is not addressable, encoding/json silently falls back
+// to the plain struct encoder and everything the custom encoder adds (custom claims) is dropped.
+func RunMarshalByValue(c *Ctx, pkgs []string) {
+	sinks := map[string]bool{"encoding/json.Marshal": true, "encoding/json.MarshalIndent": true, "encoding/json.Encode": true,
+		modPath + "/pkg/crypto.Sign": true, modPath + "/pkg/http.MarshalJSON": true, modPath + "/pkg/http.MarshalJSONWithStatus": true}
+	n := 0
+	for _, fi := range c.P.Funcs {
+		if fi.Body == nil {
+			continue
+		}
+		if !fi.Ctl && !contains(pkgs, shortPkg(fi.Pkg.PkgPath)) {
+			continue
+		}
+		info := fi.Pkg.TypesInfo
+		ast.Inspect(fi.Body, func(nd ast.Node) bool {
+			if lit, ok := nd.(*ast.FuncLit); ok && lit != fi.Lit {
+				return false
+			}
+			call, ok := nd.(*ast.CallExpr)
+			if !ok {
+				return true
+			}
+			fn, _ := typeutil.Callee(info, call).(*types.Func)
+			if fn == nil || fn.Pkg() == nil {
+				return true
+			}
+			if !sinks[fn.Pkg().Path()+"."+fn.Name()] && !(fi.Ctl && fn.Name() == "ctlMarshal") {
+				return true
+			}
+			for _, a := range call.Args {
+				t := info.TypeOf(a)
+				if t == nil {
+					continue
+				}
+				nt, isNamed := t.(*types.Named)
+				if !isNamed {
+					continue
+				}
+				if _, isIface := nt.Underlying().(*types.Interface); isIface {
+					continue
+				}
+				n++
+				hasVal := types.NewMethodSet(nt).Lookup(nil, "MarshalJSON") != nil
+				hasPtr := types.NewMethodSet(types.NewPointer(nt)).Lookup(nil, "MarshalJSON") != nil
+				bad := hasPtr && !hasVal
+				construct := "by-value " + typeStr(nt) + " handed to " + fn.Name()
+				for _, name := range c.attributed(fi) {
+					c.R.Obl(Obligation{Rule: "E8.R-marshal-value", Func: name, Construct: construct, Pos: c.P.Position(a.Pos()), Discharged: !bad, Nontrivial: hasPtr, Ctl: fi.Ctl})
+					if bad {
+						c.R.Find(Finding{Rule: "E8.R-marshal-value", Func: name, Construct: construct, Pos: c.P.Position(a.Pos()), Ctl: fi.Ctl,
+							Msg: fmt.Sprintf("%s is passed to %s by value, but its MarshalJSON has a pointer receiver: encoding/json uses the plain struct encoder for the copy and drops what the custom encoder adds - pass a pointer", typeStr(nt), fn.Name())})
+					}
+				}
+			}
+			return true
+		})
+	}
+	c.R.Extra["marshal_by_value_sites"] = n
+}
